@@ -137,3 +137,49 @@ def snapshot_max(snap):
     for pk in snap["peaks"]:
         m = max(m, pk["peak"])
     return m
+
+
+# --------------------------------------------------------------------------
+# compiled programs -> ProgramJudge steps
+# --------------------------------------------------------------------------
+def _letters(s):
+    return [ord(ch) for ch in s]
+
+
+def program_steps(contractions):
+    """cotengra's tuple of (p, l, r, tdot, arg, perm) -> ProgramJudge steps"""
+    steps = []
+    for p, l, r, tdot, arg, perm in contractions:
+        if l is None and r is None:
+            lhs, rhs = arg.split("->")
+            steps.append({"op": "pre", "n": node1(p), "lhs": _letters(lhs), "rhs": _letters(rhs)})
+        elif tdot:
+            al, ar = arg
+            steps.append({"op": "tdot", "p": node1(p), "l": node1(l), "r": node1(r),
+                          "al": [int(a) + 1 for a in al], "ar": [int(a) + 1 for a in ar],
+                          "perm": [int(a) + 1 for a in perm] if perm else []})
+        else:
+            lhs, out = arg.split("->")
+            L, R = lhs.split(",")
+            steps.append({"op": "ein", "p": node1(p), "l": node1(l), "r": node1(r),
+                          "lhs": _letters(L), "rhs": _letters(R), "out": _letters(out)})
+    return steps
+
+
+def compiled_program(tree, order=None, prefer_einsum=False, implementation=None, strip_exponent=False):
+    """the program tree.contract(...) will execute for these options (it is
+    compiled once per option key and kept in tree.contraction_cores)"""
+    fn = tree.get_contractor(order=order, prefer_einsum=prefer_einsum, implementation=implementation,
+                             strip_exponent=strip_exponent, autojit=False)
+    return program_steps(fn.contractions)
+
+
+def program_case(net, tree, steps, value=None, refvalue=None):
+    import numpy as np
+    case = {"net": net.tla(), "sliced": sliced_of(net, tree), "steps": steps,
+            "value": [], "refvalue": [], "check_value": False}
+    if value is not None:
+        case["value"] = [int(v) for v in np.asarray(value).reshape(-1)]
+        case["refvalue"] = [int(v) for v in np.asarray(refvalue).reshape(-1)]
+        case["check_value"] = True
+    return case
